@@ -18,7 +18,6 @@ func init() {
 	reg("PARSE", ruleParse)
 	reg("PARSE-8", ruleParse8)
 	reg("DS", ruleDesugar)
-	reg("DS-7", ruleDS7)
 }
 
 func (c *Ctx) constStr(e ast.Expr) (string, bool) {
@@ -1386,141 +1385,4 @@ func (c *Ctx) regexpVarByQual(q string) *regexp.Regexp {
 		return nil
 	}
 	return c.regexpVar(q[:i], q[i+1:])
-}
-
-// DS-7 (own rule id so that it can serve C12's "compile time polynomial in the source length" without dragging in the
-// other desugaring clauses).
-func ruleDS7(c *Ctx) {
-	c.R.Rule("DS-7", 10, "desugaring is one traversal: on every path through a case of trans.Desugar each sub-tree of the node is handed to a recursive Desugar call at most once, and never both a sub-tree and one of its own sub-trees; otherwise the cost doubles per nesting level and compile time is exponential in the length of a chain of such nodes")
-	fd := c.FuncDecl("trans", "Desugar")
-	if fd == nil {
-		c.R.Anchor("trans.Desugar")
-		return
-	}
-	var ts *ast.TypeSwitchStmt
-	for _, s := range c.typeSwitches(fd.Body) {
-		if ts == nil {
-			ts = s
-		}
-	}
-	if ts == nil {
-		c.R.Anchor("trans.Desugar type switch")
-		return
-	}
-	param := c.objOf(fd.Type.Params.List[0].Names[0])
-	cases := c.tsCases(ts)
-	name := "trans.Desugar"
-	var caseNames []string
-	for k := range cases {
-		caseNames = append(caseNames, k)
-	}
-	sortStrings(caseNames)
-	// DS-7: one traversal. On every path through a case each sub-tree of the node is handed to Desugar at most once, and never
-	// both a sub-tree and one of its own sub-trees (Desugar(e.Callee) and Desugar(e.Callee.Obj)): the second visit doubles the
-	// work at every level, i.e. desugaring a chain of n nested nodes costs 2^n.
-	{
-		tsv := map[types.Object]bool{param: true}
-		for _, cc := range cases {
-			if o := c.tsVar(ts, cc); o != nil {
-				tsv[o] = true
-			}
-		}
-		for _, cn := range caseNames {
-			cc := cases[cn]
-			if cn == "default" {
-				continue
-			}
-			blk := &ast.BlockStmt{List: cc.Body, Lbrace: cc.Pos(), Rbrace: cc.End()}
-			one := map[types.Object]ast.Expr{}
-			cnt := map[types.Object]int{}
-			rng := map[types.Object]ast.Expr{}
-			ast.Inspect(blk, func(x ast.Node) bool {
-				switch st := x.(type) {
-				case *ast.AssignStmt:
-					if len(st.Rhs) == 1 && (len(st.Lhs) == 1 || len(st.Lhs) == 2) {
-						if id, ok := st.Lhs[0].(*ast.Ident); ok {
-							if o := c.objOf(id); o != nil {
-								cnt[o]++
-								one[o] = st.Rhs[0]
-							}
-						}
-					}
-				case *ast.RangeStmt:
-					if st.Value != nil {
-						if o := c.objOf(st.Value); o != nil {
-							rng[o] = st.X
-						}
-					}
-				}
-				return true
-			})
-			var pathOf func(e ast.Expr, d int) string
-			pathOf = func(e ast.Expr, d int) string {
-				if d > 10 {
-					return "?"
-				}
-				switch x := unparen(e).(type) {
-				case *ast.Ident:
-					o := c.objOf(x)
-					if tsv[o] {
-						return "e"
-					}
-					if r, ok := rng[o]; ok {
-						return pathOf(r, d+1) + "[]"
-					}
-					if def, ok := one[o]; ok && cnt[o] == 1 {
-						return pathOf(def, d+1)
-					}
-					return "?"
-				case *ast.SelectorExpr:
-					return pathOf(x.X, d+1) + "." + x.Sel.Name
-				case *ast.TypeAssertExpr:
-					return pathOf(x.X, d+1)
-				case *ast.IndexExpr:
-					return pathOf(x.X, d+1) + "[]"
-				case *ast.StarExpr:
-					return pathOf(x.X, d+1)
-				}
-				return "?"
-			}
-			paths, okP := c.retPathsLoose(cc.Body)
-			if !okP {
-				c.R.Unk(name, "DS-7 "+cn+" visits each sub-tree once", cc.Pos(), "control flow of the case is not enumerable")
-				continue
-			}
-			bad := ""
-			for _, rp := range paths {
-				var seen []string
-				nodes := []ast.Node{}
-				for _, st := range rp.stmts {
-					nodes = append(nodes, st)
-				}
-				if rp.ret != nil {
-					nodes = append(nodes, rp.ret)
-				}
-				for _, pc := range rp.conds {
-					nodes = append(nodes, pc.e)
-				}
-				for _, nd := range nodes {
-					for _, call := range c.callsTo(nd, "trans.Desugar") {
-						if len(call.Args) != 1 {
-							continue
-						}
-						pth := pathOf(call.Args[0], 0)
-						if strings.HasPrefix(pth, "?") {
-							bad = "argument " + src(call.Args[0]) + " is not a sub-tree path of the node"
-							continue
-						}
-						for _, q := range seen {
-							if q == pth || strings.HasPrefix(pth, q+".") || strings.HasPrefix(pth, q+"[") || strings.HasPrefix(q, pth+".") || strings.HasPrefix(q, pth+"[") {
-								bad = "Desugar runs on " + q + " and on " + pth + " on one path"
-							}
-						}
-						seen = append(seen, pth)
-					}
-				}
-			}
-			c.R.Check(bad == "", name, "DS-7 "+cn+" visits each sub-tree once", cc.Pos(), "on every path the Desugar calls are on disjoint sub-trees", "a sub-tree is desugared twice on one path ("+bad+"): the cost doubles per nesting level, so compile time is exponential in the length of a chain of such nodes")
-		}
-	}
 }
